@@ -71,6 +71,26 @@ def _recv_alias(call):
     d = def_facts(facts[nodes[0].id]).get(call.func.value.id)
     if d is not None and attr_chain(d) and attr_chain(d).startswith("self."):
         return attr_chain(d)
+    # read-then-clear (`d = self.x; self.x = None; d.cancel()` or the tuple swap `self.x, d = None, self.x`): every
+    # definition of the local that reaches the call read the same attribute, so the object is the one that attribute held
+    name = call.func.value.id
+    origins = set()
+    for dn in reaching_defs(c, nodes[0].id, name):
+        st = c.nodes[dn].stmt
+        got = None
+        if isinstance(st, ast.Assign):
+            for t in st.targets:
+                if isinstance(t, ast.Name) and t.id == name and len(st.targets) == 1:
+                    got = attr_chain(st.value)
+                elif isinstance(t, (ast.Tuple, ast.List)) and isinstance(st.value, (ast.Tuple, ast.List)) and len(t.elts) == len(st.value.elts):
+                    for tt, vv in zip(t.elts, st.value.elts):
+                        if isinstance(tt, ast.Name) and tt.id == name:
+                            got = attr_chain(vv)
+        origins.add(got)
+    if len(origins) == 1:
+        o = origins.pop()
+        if o and o.startswith("self.") and o.count(".") == 1:
+            return o
     return None
 
 
@@ -931,3 +951,17 @@ def deferred_origins(cfg, nid, expr, _depth=0):
             out.extend(sub)
         return out
     return [e]
+
+
+def result_stored(cfg, n, call, attr):
+    """The Deferred returned by `call` (made at node n) is kept in self.<attr>: by the statement itself, or by a store
+    that every normal path from n passes (`d = self.f(); self.x = d`)."""
+    if node_assign_value(n, attr) is not None:
+        return True
+    for sn in cfg.nodes:
+        v = node_assign_value(sn, attr)
+        if v is not None and not is_none_const(v):
+            og = deferred_origins(cfg, sn.id, v) or []
+            if len(og) == 1 and og[0] is call and not cfg.normal_exits_from(n.id, avoid=[sn.id]):
+                return True
+    return False
